@@ -83,6 +83,29 @@ def run_models(rep: Report, prop: str, tier: str):
             raise MachineryError(f"model MC_Exec_{name} violates {v} - the specification itself is inconsistent:\n"
                                  + "\n".join(r.out.splitlines()[-40:]))
     rep.samples.append({"model_config": f"MC_Exec_{names[0]}.cfg", "spec": "Eudoxia.tla (universal scheduler)"})
+    if tier == "thorough":
+        deep_models(rep, prop)
+
+
+SWITCH_EXPECT = {"D1": "C05_OnlyDocumentedRejections", "D2": "C10_SuspLeftPositive", "D3": "C04_ReportedIsSum", "D4": "C09_UnknownPoolRejected"}
+
+
+def deep_models(rep, prop):
+    """Thorough tier: (a) with a deviation switch off TLC must FIND the corresponding defect of the pinned tree (the model can express it);
+    (b) random simulation far beyond the exhaustive depth."""
+    for d, want in SWITCH_EXPECT.items():
+        r = common.run_tlc("MC_Exec", SPEC / f"MC_Exec_{d}.cfg", timeout=1200)
+        if not any(want in v for v in r.violated):
+            raise MachineryError(f"deviation switch {d}: TLC did not find {want} (found {r.violated or r.error})")
+        rep.extra.setdefault("defect_switches_found", []).append(f"{d}:{want}")
+    quick, _ = MODEL[prop]
+    src = (SPEC / f"MC_Exec_{quick[0]}.cfg").read_text().replace("MaxTick = 3", "MaxTick = 12").replace("MaxTick = 4", "MaxTick = 12")
+    f = common.scratch() / "MC_Exec_sim.cfg"
+    f.write_text(src)
+    r = common.run_tlc("MC_Exec", f, timeout=1500, workers=common.NCPU, extra=["-simulate", "num=3000", "-depth", "30"])
+    if r.violated or (r.error and "timeout" not in r.error):
+        raise MachineryError(f"simulation of MC_Exec_{quick[0]} to depth 30: {r.violated or r.error}")
+    rep.extra["simulation"] = {"config": quick[0], "depth": 30, "behaviours_per_worker": 3000, "states_generated": r.generated}
 
 
 def validate(traces, rep: Report, prop: str, *, nshards=None):
